@@ -12,7 +12,7 @@ func init() {
 	register(&propInfo{
 		ID:          "C16",
 		Run:         runC16,
-		MinObl:      16,
+		MinObl:      19,
 		Explanation: "Decided: R1 every success exit of the device-validate function knows user-code state ∉ {unused, rejected}; the unused exit derives from ErrAuthorizationPending, the rejected exit from ErrAccessDenied; R2 success requires client-id(stored)==client-id(request) (mismatch → ErrInvalidGrant), ValidateDeviceCode nil for the string whose signature was looked up, and SetID(GetID(stored)); R3 in the device-redeem function InvalidateDeviceCodeSession precedes the session creates, error tested, inside the open transaction with its context, keyed by the looked-up signature; R4 under ErrInvalidated{DeviceCode,AuthorizeCode} with a non-nil stored request both revokes run with GetID(stored) and the exit derives from ErrInvalidGrant; R5 the device authorization endpoint succeeds only after client authentication, client_id match and the device_code grant gate; R6 device and user codes reach CreateDeviceAuthSession only as the signature results of Generate{Device,User}Code while the response carries the code results. R6 reference-store contract: every success path of InvalidateDeviceCodeSession removes or rewrites DeviceAuths[signature]. NOT decided: unguessability/distinctness of generated codes, expiry arithmetic (C07), histories.",
 	})
 }
